@@ -176,7 +176,7 @@ VF_SUITE(pairs, pairs_count, pairs_run)
 
 // (b) all short messages over a reduced alphabet
 static const uint8_t ALPHA[4] = {0x00, 0x01, 0x80, 0xFF};
-static int short_maxlen() { return vf::thorough() ? 6 : 4; }
+static int short_maxlen() { return vf::thorough() ? 8 : 4; }
 static uint64_t short_count()
 {
     uint64_t t = 0, p = 1;
@@ -194,7 +194,7 @@ static void short_run(uint64_t idx)
         p *= 4;
         len++;
     }
-    uint8_t m[8];
+    uint8_t m[12];
     for (int i = 0; i < len; i++, idx /= 4)
         m[i] = ALPHA[idx % 4];
     static const uint32_t seeds[3] = {0, 0xFFFFFFFFu, 0x5A5A5A5Au};
@@ -206,7 +206,7 @@ static void short_run(uint64_t idx)
 VF_SUITE(shortmsgs, short_count, short_run)
 
 // (c) random messages of every length at every misalignment
-static uint64_t rand_count() { return vf::thorough() ? 256ull * 8 * 300 : 256ull * 8 * 6; }
+static uint64_t rand_count() { return vf::thorough() ? 256ull * 8 * 1500 : 256ull * 8 * 6; }
 static void rand_run(uint64_t idx)
 {
     vf::Rng r(vf::seed(), 0xC17, idx);
